@@ -72,6 +72,7 @@ type fnEnc struct {
 	localAllocs []string // refs of non-escaping allocations
 	localMaps   []*ssa.MakeMap
 	stepSkipped map[*Clause]string
+	loopEntryHeap map[*ssa.BasicBlock]map[string]string
 	stepDone    map[*Clause]bool
 	curInstr    ssa.Instruction
 	lockAtEntry string
